@@ -230,7 +230,7 @@ pub fn record(mode: &str, seed: u64, n: usize, out: &mut Out) {
         // C03: every entry point on hostile input; every returned message is re-serialised and measured
         "hostile" => {
             for i in 0..n {
-                let big = if i % 25 == 24 { 70000 } else if i % 5 == 4 { 2000 } else { 24 };
+                let big = if i % 10 == 9 { 70000 } else if i % 5 == 4 { 2000 } else { 24 };
                 let inputs = hostile_inputs(&mut r, big);
                 for (x, sh) in inputs {
                     let cfg = if r.coin() { Some(random_filter(&mut r, None)) } else { None };
